@@ -30,5 +30,28 @@ CHECKS = {
     },
 }
 
+CHECKS["C10"] = {
+    "level": "exploration",
+    "claim": ("Generated-input search against a reference stream framer written from RFC 5766 §11.5/RFC 5389 §6: random frame "
+              "sequences (every STUN body length class, ChannelData payloads 0..72, 1400..1600, 65528..65535, payloads that "
+              "start with the STUN cookie) under random / byte-wise / single / double cut segmentations, plus exhaustive "
+              "enumeration of every 1- and 2-cut segmentation of 18 short sequences and of the ConnectionBind replies. "
+              "Oracles: exact frame equality, promptness (no Read past a frame's last byte), progress (n>=1), garbage never "
+              "returned as data, BindConnection verdict and consumed bytes independent of segmentation."),
+    "level_note": ("Trusted: the reference framer (harness/ref.NextFrame). Buffers handed to ReadFrom are >= 65600 bytes. "
+                   "Held on everything explored; no absence claim."),
+    "technique": "property-based testing: rapid-generated frame sequences x segmentations vs. a reference framer (differential + metamorphic), exhaustive small-stream partitions; native fuzzing in the thorough tier",
+    "rule": ("a case is a frame sequence + cut list (+ optional garbage tail), or a ConnectionBind reply + cut list; non-trivial = "
+             ">=2 frames with a cut strictly inside a frame header or inside padding, or a ChannelData frame with payload < 5 "
+             "bytes, or a declared length >= 0xFFE8, or a payload starting with the STUN magic cookie, or (bind) at least one "
+             "cut; distinct by hash of frames+cuts+tail"),
+    "assumptions": [],
+    "stages": [
+        {"name": "framer", "pkg": "pure", "run": "^TestC10$",
+         "quick": {"shards": 4, "checks": 12000, "timeout_s": 300},
+         "thorough": {"shards": 16, "checks": 150000, "timeout_s": 1500}},
+    ],
+}
+
 _NOT_BUILT = "check not built yet in this round (planned, see DESIGN.md section 4)"
 PENDING = {("C%02d" % i): _NOT_BUILT for i in range(1, 21)}
